@@ -69,7 +69,8 @@ Init ==
   /\ bad = {} /\ known = {} /\ midAmo = FALSE
   /\ last = <<0, "none", 0>> /\ nobs = 0
 
-ExecTerminal == outcome \in {"SUCCEEDED", "FAILED"}
+\* the execution is over when an invocation reported a final status, or an execution-level result record was accepted
+ExecTerminal == outcome \in {"SUCCEEDED", "FAILED"} \/ execRes = "recorded"
 
 ---------------------------------------------------------------------------
 \* Backend contract (mirror of harness/backend.py ModelBackend.legal / apply)
@@ -193,7 +194,8 @@ Enq(u, nextPh) ==
   IF pfail # "no"
     THEN /\ ph' = "EnqBlocked" /\ UNCHANGED <<q, nph>>     \* create_checkpoint raises BackgroundThreadError at once
     ELSE /\ q' = Append(q, u)
-         /\ IF u.sync THEN ph' = "WaitFlush" /\ nph' = nextPh ELSE ph' = nextPh /\ nph' = nph
+         \* sync: park until flushed.  async: the failure flag is re-checked right after the put (PostPut)
+         /\ ph' = (IF u.sync THEN "WaitFlush" ELSE "PostPut") /\ nph' = nextPh
 
 HandlerOf(i) == IF Prog[i].parent = 0 THEN N ELSE Prog[Prog[i].parent].endIdx
 NextOf(i) == IF Prog[i].kind = "CHILD_BEGIN" THEN Prog[i].endIdx + 1 ELSE i + 1
@@ -215,8 +217,10 @@ DeliverVal(i, v, xbad) ==
 
 \* a call raises error e in user code: caught by the program (unless invocation-level) or propagated
 RaiseErr(i, e, xbad) ==
-  /\ ObsSet(i, <<e.cls, e.sym>>)
-  /\ bad' = bad \cup Div(i, <<e.cls, e.sym>>) \cup xbad
+  \* an invocation-level error (StepInterruptedError) tears the invocation down: user code must let it propagate,
+  \* so it is not an observation that user control flow can depend on (C02 compares completed deliveries only)
+  /\ IF e.cls = "Interrupted" THEN UNCHANGED obs /\ bad' = bad \cup xbad
+                               ELSE ObsSet(i, <<e.cls, e.sym>>) /\ bad' = bad \cup Div(i, <<e.cls, e.sym>>) \cup xbad
   /\ IF Prog[i].caught /\ e.cls # "Interrupted"
        THEN pc' = NextOf(i) /\ ph' = "Check" /\ err' = NoErr
        ELSE pc' = HandlerOf(i) /\ ph' = "Unwind" /\ err' = e
@@ -230,6 +234,13 @@ Suspend == /\ EndWith("PENDING") /\ UNCHANGED <<bevars, crashes, apifails>> /\ U
 Resume ==
   /\ ist = "Running" /\ ph = "WaitFlush" /\ q = <<>> /\ pfail = "no"
   /\ ph' = nph
+  /\ UNCHANGED <<bevars, inv, ist, outcome, loc, q, pfail, pc, nph, cur, att, err, rcmode, val, crashes, apifails>>
+  /\ UNCHANGED monvars
+
+\* after an asynchronous put: "if self._checkpointing_failed.is_set(): raise"
+PostPut ==
+  /\ ist = "Running" /\ ph = "PostPut"
+  /\ ph' = (IF pfail # "no" THEN "EnqBlocked" ELSE nph)
   /\ UNCHANGED <<bevars, inv, ist, outcome, loc, q, pfail, pc, nph, cur, att, err, rcmode, val, crashes, apifails>>
   /\ UNCHANGED monvars
 
@@ -434,12 +445,16 @@ ChildBegin ==
             /\ UNCHANGED <<q, nph, cur, att, err, val>> /\ UserUnch /\ UNCHANGED monvars
        [] c.st = "FAILED" -> /\ RaiseErr(pc, [cls |-> "Callable", sym |-> c.res], {}) /\ UserUnch
        [] c.st = "ABSENT" ->
-            /\ q' = Append(q, Upd(pc, "START", FALSE, 0, FALSE))
-            /\ pc' = pc + 1 /\ ph' = "Check"
-            /\ UNCHANGED <<nph, cur, att, err, rcmode, val>> /\ UserUnch /\ UNCHANGED monvars
+            /\ Enq(Upd(pc, "START", FALSE, 0, FALSE), "EnterBody")
+            /\ UNCHANGED <<pc, cur, att, err, rcmode, val>> /\ UserUnch /\ UNCHANGED monvars
        [] OTHER ->
             /\ pc' = pc + 1 /\ ph' = "Check"
             /\ UNCHANGED <<q, nph, cur, att, err, rcmode, val>> /\ UserUnch /\ UNCHANGED monvars
+
+ChildEnter ==
+  /\ Running("CHILD_BEGIN", "EnterBody")
+  /\ pc' = pc + 1 /\ ph' = "Check"
+  /\ UNCHANGED <<q, nph, cur, att, err, rcmode, val>> /\ UserUnch /\ UNCHANGED monvars
 
 \* the body returned normally
 ChildEnd ==
@@ -478,8 +493,10 @@ ChildReraise ==
   /\ Running("CHILD_END", "Reraise")
   /\ LET b == I.begin
          e == IF err.cls = "Interrupted" THEN err ELSE [cls |-> "Callable", sym |-> b] IN
-     /\ ObsSet(b, <<e.cls, e.sym>>)
-     /\ bad' = bad \cup Div(b, <<e.cls, e.sym>>) \cup (IF be[b].st = "FAILED" THEN {} ELSE {"C03-unrecorded"})
+     /\ IF e.cls = "Interrupted"
+          THEN UNCHANGED obs /\ bad' = bad \cup (IF be[b].st = "FAILED" THEN {} ELSE {"C03-unrecorded"})
+          ELSE ObsSet(b, <<e.cls, e.sym>>)
+               /\ bad' = bad \cup Div(b, <<e.cls, e.sym>>) \cup (IF be[b].st = "FAILED" THEN {} ELSE {"C03-unrecorded"})
      /\ rcmode' = rcmode \ {b}
      /\ IF Prog[b].caught /\ e.cls # "Interrupted"
           THEN pc' = pc + 1 /\ ph' = "Check" /\ err' = NoErr
@@ -493,7 +510,10 @@ ChildReraise ==
 \* the handler returned: small result -> SUCCEEDED; large result -> EXECUTION SUCCEED checkpoint first
 HandlerReturn ==
   /\ Running("END", "Check")
-  /\ IF I.large
+  /\ IF I.raises
+       THEN \* the handler itself raises an ordinary exception at its end: FAILED with the error object
+            /\ EndWith("FAILED") /\ UNCHANGED <<bevars, crashes, apifails>> /\ UNCHANGED monvars
+       ELSE IF I.large
        THEN /\ Enq([op |-> 0, act |-> "SUCCEED", sync |-> TRUE, res |-> 0, rc |-> FALSE], "Done")
             /\ UNCHANGED <<pc, cur, att, err, rcmode, val, bevars, inv, ist, outcome, loc, pfail, crashes, apifails>>
             /\ UNCHANGED monvars
@@ -514,9 +534,9 @@ HandlerRaise ==
 UserStep == StepCheck \/ StepRecheck \/ StepFnEnter \/ StepFnExit \/ StepDone \/ StepRetry \/ StepSuspend \/ StepRaise
             \/ WaitCheck \/ InvokeCheck \/ CbCreate \/ CbResult
             \/ WfcCheck \/ WfcPollEnter \/ WfcPollExit \/ WfcDone \/ WfcRaiseOrig
-            \/ ChildBegin \/ ChildEnd \/ ChildDone \/ ChildUnwind \/ ChildReraise
+            \/ ChildBegin \/ ChildEnter \/ ChildEnd \/ ChildDone \/ ChildUnwind \/ ChildReraise
             \/ HandlerReturn \/ HandlerLargeDone \/ HandlerRaise
-            \/ Resume \/ BteEnd
+            \/ Resume \/ PostPut \/ BteEnd
 
 EnvStep == (\E i \in OpIdx : FireTimer(i)) \/ (\E i \in OpIdx, o \in TERMINAL : CompleteExt(i, o))
 PipeStep == (\E k \in 1..Len(q) : Flush(k)) \/ (\E c \in {"retriable", "fatal"} : FlushFail(c))
